@@ -29,11 +29,13 @@ Tick == steps' = steps + 1 /\ steps < MaxSteps
 \* current (same content - C13) AND recorded for the requested algorithm
 Staged(p, a) == IF row[p] # NoRow /\ row[p].c = ws[p] /\ row[p].alg = a THEN row[p].d ELSE Dig[a][ws[p]]
 
-Edit(p, c) ==
+\* how = "rewrite": new inode and new mtime; "keep-mtime": a new inode carrying the old file's mtime (cp -p, rsync -t) -
+\* with contents of equal size only the inode tells
+Edit(p, c, how) ==
     /\ Tick /\ c # ws[p]
     /\ ws' = [ws EXCEPT ![p] = c]
-    /\ row' = [row EXCEPT ![p] = NoRow]      \* a rewrite changes the (inode, mtime, size) token: the row is dead (C13)
-    /\ act' = [op |-> "Edit", p |-> p, c |-> c]
+    /\ row' = [row EXCEPT ![p] = NoRow]      \* either way the (inode, mtime, size) token changes: the row is dead (C13)
+    /\ act' = [op |-> "Edit", p |-> p, c |-> c, how |-> how]
     /\ UNCHANGED <<store, prot>>
 
 \* store[s] is a set of <<name, content>> pairs with unique names: an object file that exists is never rewritten
@@ -70,7 +72,7 @@ Migrate(s, t) ==
     /\ UNCHANGED <<ws, row>>
 
 Next ==
-    \/ \E p \in Paths, c \in Contents : Edit(p, c)
+    \/ \E p \in Paths, c \in Contents, how \in {"rewrite", "keep-mtime"} : Edit(p, c, how)
     \/ \E s \in Stores, how \in {"stage", "save", "upload", "file", "hardlink"} : Add(s, how)
     \/ \E s \in Stores, t \in Stores : Migrate(s, t)
 
